@@ -69,12 +69,38 @@ def split_top(s, sep=","):
     return out
 
 
+CONST_ITEM = re.compile(r"^const ([A-Za-z_][A-Za-z0-9_]*): ([iu](?:8|16|32|64|128|size)) = const (.+);$")
+# simple integer const items of the crate: bare name -> set of (type, value) (the MIR dump prints them without
+# their module path, so a name defined twice with different values is ambiguous and refused)
+CONST_ITEMS = {}
+
+
+def _const_item_value(ty, txt):
+    txt = txt.strip()
+    m = re.match(r"^(-?\d+)_" + ty + "$", txt)
+    if m:
+        return int(m.group(1))
+    w, sg = INT_T[ty]
+    if txt == ty + "::MAX":
+        return (1 << (w - 1)) - 1 if sg else (1 << w) - 1
+    if txt == ty + "::MIN":
+        return -(1 << (w - 1)) if sg else 0
+    return None
+
+
 def parse_mir(text):
     fns = {}
     cur = None
     bb = None
+    CONST_ITEMS.clear()
     for line in text.splitlines():
         if cur is None:
+            mc = CONST_ITEM.match(line)
+            if mc:
+                v = _const_item_value(mc.group(2), mc.group(3))
+                if v is not None:
+                    CONST_ITEMS.setdefault(mc.group(1), set()).add((mc.group(2), v))
+                continue
             m = HDR.match(line)
             if m:
                 params = []
@@ -586,6 +612,14 @@ class Exec:
             return Bool("false")
         if s == "const ()":
             return Unit()
+        m = re.match(r"^const ((?:[A-Za-z_][A-Za-z0-9_]*::)*)([A-Z_][A-Z0-9_]*)$", s)
+        if m and m.group(2) in CONST_ITEMS:
+            vals = CONST_ITEMS[m.group(2)]
+            if len(vals) == 1:
+                ty, v = next(iter(vals))
+                w, sg = INT_T[ty]
+                return self.const_int(v, w, sg)
+            raise Unsupported("ambiguous const item " + s)
         raise Unsupported("operand " + s)
 
     def binop(self, op, a, b):
